@@ -434,7 +434,7 @@ SPARSE_FUNCS = ("csc_matrix", "csr_matrix", "coo_matrix", "lil_matrix",
                 "dia_matrix", "dok_matrix", "bsr_matrix", "csc_array",
                             "csr_array", "identity", "eye", "diags", "spdiags",
                             "block_diag", "kron")
-DENSE_MAKERS = {"toarray", "todense", "get_adjacency_dense"}
+DENSE_MAKERS = {"toarray"}     # todense() gives np.matrix, whose `*` is the matrix product
 DENSE_FUNCS = {"np.zeros", "np.ones", "np.empty", "np.array", "np.asarray", "np.full",
                "np.zeros_like", "np.ones_like", "np.empty_like", "np.identity", "np.eye",
                "np.diag", "np.outer", "np.dot", "np.matmul", "np.abs", "np.triu",
